@@ -573,3 +573,98 @@ func execProofName(f []string) vlib.Res {
 	}
 	return vlib.Res{Impl: got, Oracle: or}
 }
+
+// ttl calc A=<items> N=<items> E=<items>     dnsutil.CalculateCacheTTL for a cacheable response:
+// items: r<ttl> a record, g<ttl>:<left> an RRSIG with <left> seconds to its expiration (may be ≤ 0),
+// s<ttl>:<min> an SOA with that MINIMUM.  Result in whole seconds.
+func execTTL(f []string) vlib.Res {
+	m := kv(f)
+	now := time.Now()
+	msg := new(dns.Msg)
+	msg.SetQuestion("ttl.adtest.", dns.TypeA)
+	msg.Response = true
+	bound := int64(86400)
+	total := 0
+	sec := func(items string) []dns.RR {
+		var out []dns.RR
+		for _, it := range splitList(items) {
+			total++
+			kind, rest := it[0], it[1:]
+			a, b, _ := strings.Cut(rest, ":")
+			ttl := vlib.AtoI64(a)
+			if ttl < bound {
+				bound = ttl
+			}
+			h := dns.RR_Header{Name: "ttl.adtest.", Class: 1, Ttl: uint32(ttl)}
+			switch kind {
+			case 'r':
+				h.Rrtype = dns.TypeA
+				out = append(out, &dns.A{Hdr: h, A: []byte{192, 0, 2, 1}})
+			case 'g':
+				left := vlib.AtoI64(b)
+				h.Rrtype = dns.TypeRRSIG
+				out = append(out, &dns.RRSIG{Hdr: h, TypeCovered: dns.TypeA, Algorithm: 13, Labels: 2, OrigTtl: uint32(ttl),
+					Expiration: uint32(now.Unix() + left), Inception: uint32(now.Unix() - 3600), KeyTag: 1, SignerName: "adtest.", Signature: "AAAA"})
+				if left <= 0 {
+					left = 5
+				}
+				if left < bound {
+					bound = left
+				}
+			case 's':
+				min := vlib.AtoI64(b)
+				h.Rrtype = dns.TypeSOA
+				out = append(out, &dns.SOA{Hdr: h, Ns: "ns.adtest.", Mbox: "h.adtest.", Serial: 1, Refresh: 1, Retry: 1, Expire: 1, Minttl: uint32(min)})
+				if min < bound {
+					bound = min
+				}
+			}
+		}
+		return out
+	}
+	msg.Answer, msg.Ns, msg.Extra = sec(m["A"]), sec(m["N"]), sec(m["E"])
+	rt := dnsutil.TypeSuccess
+	if len(msg.Answer) == 0 {
+		rt = dnsutil.TypeNoRecords
+	}
+	d := dnsutil.CalculateCacheTTL(msg, rt)
+	got := int64((d + time.Second - 1) / time.Second)
+	// oracle: an entry never outlives any record's TTL, any SOA MINIMUM of its authority section or ANY signature
+	// it carries — in whichever section — apart from the 5 s floor
+	if bound < 5 || total == 0 {
+		bound = 5
+	}
+	or := "ok"
+	if got > bound {
+		or = fail("ttl/cached-past-a-ttl-or-signature-expiration", "got=%d bound=%d", got, bound)
+	}
+	return vlib.Res{Impl: fmt.Sprint(got), Oracle: or, Tags: "nt"}
+}
+
+func genTTL(r *vlib.R) string {
+	item := func(sec byte) string {
+		ttl := vlib.Pick(r, []int{300, 3600, 60, 86400, 100000, 5, 0, 30})
+		switch r.Intn(5) {
+		case 0, 1:
+			return fmt.Sprintf("r%d", ttl)
+		case 2, 3:
+			return fmt.Sprintf("g%d:%d", ttl, vlib.Pick(r, []int{20, 45, 7, 3, 0, -30, 200, 4000, 90000, 600}))
+		}
+		if sec == 'N' {
+			return fmt.Sprintf("s%d:%d", ttl, vlib.Pick(r, []int{300, 60, 3600, 5, 0}))
+		}
+		return fmt.Sprintf("r%d", ttl)
+	}
+	mk := func(sec byte, max int) string {
+		n := r.Intn(max + 1)
+		if n == 0 {
+			return "-"
+		}
+		var l []string
+		for i := 0; i < n; i++ {
+			l = append(l, item(sec))
+		}
+		return strings.Join(l, ",")
+	}
+	return fmt.Sprintf("ttl calc A=%s N=%s E=%s", mk('A', 3), mk('N', 4), mk('E', 2))
+}
